@@ -233,10 +233,10 @@ def L4_end_steps(P, cut, W, which, mark):
     return 6 if ok else 0
 
 
-@obligation(params=dict(P=Text(4), cut=Int(0, 4), V=Text(4), W=OptInt(1, 5), lb=Int(0, 3)),
+@obligation(params=dict(P=Text(4), cut=Int(0, 4), V=Text(4), W=OptInt(1, 5), lb=Int(0, 3), D=Text(2)),
             tags={2: 'window is the assigned text', 3: 'window is its last W characters'}, timeout=90,
             note='buffer setter: the next call sees exactly the assigned text as pending')
-def L5_setter(P, cut, V, W, lb):
+def L5_setter(P, cut, V, W, lb, D):
     if cut > len(P):
         return SKIP
     sp = state_spawn(P, cut, W)
@@ -256,6 +256,13 @@ def L5_setter(P, cut, V, W, lb):
     if not (sp.before == V):
         return 0
     if not inv0(sp, V):
+        return 0
+    # ... and what is read afterwards is appended to it exactly once
+    sr2 = AbsSearcher(False, 0, 0, lb)
+    ex2 = Expecter(sp, sr2, -1)
+    if ex2.existing_data() is not None or ex2.new_data(D) is not None:
+        return 0
+    if not inv0(sp, V + D):
         return 0
     return 2 if W is None or W >= len(V) else 3
 
@@ -368,7 +375,7 @@ def dry_runs():
     yield 'L6_two_calls', dict(S='abc', c1=2, s='zz', W1=1, W2=None, end1=1, kind2=0)
     for how in range(3):
         yield 'L7_lines', dict(S='a\r\nb', c1=2, how=how)
-    yield 'L5_setter', dict(P='abc', cut=1, V='xy', W=None, lb=0)
+    yield 'L5_setter', dict(P='abc', cut=1, V='xy', W=None, lb=0, D='q')
     yield 'L4_end_steps', dict(P='abc', cut=1, W=None, which=0, mark=0)
     yield 'L4_end_steps', dict(P='abc', cut=1, W=2, which=1, mark=-1)
     yield 'L4_end_steps', dict(P='abc', cut=0, W=None, which=2, mark=-1)
